@@ -109,12 +109,12 @@ def ref_value(v: Any, mask: int, shift: bool) -> Any:
         return ref_node(v, mask, shift)
     if isinstance(v, Origin):
         return ref_origin(v, mask, shift)
+    if isinstance(v, enum.Enum):  # before str: an enum with a str mixin is written as its plain value
+        return str.__str__(v) if isinstance(v, str) else v.value
     if isinstance(v, bool) or v is None or isinstance(v, (str, float)):
         return v
     if isinstance(v, int):
         return v + 1000 if shift else v
-    if isinstance(v, enum.Enum):
-        return v.value
     if isinstance(v, PurePath):
         return v.as_posix()
     if isinstance(v, (tuple, list, frozenset)):  # only empty frozensets occur (field defaults)
